@@ -89,6 +89,11 @@ def concrete(family, kind):
         fr.iloc[40, fr.columns.get_loc("observed")] = -5.0
         return fr
 
+    def no_sundays(fr):
+        fr = fr.copy()
+        fr.loc[fr.index.dayofweek == 6, "observed"] = np.nan
+        return fr
+
     if family == "billing":
         def poor_b(fr):
             # month-level weather-independent noise (day-level noise averages out of a bill)
@@ -116,7 +121,13 @@ def concrete(family, kind):
           ("too_long_400d", lambda: base(days=400), True, std),
           ("offcycle_10d_read" if family == "billing" else "usage_gaps_50d", lambda: gaps(base()), True, std),
           ("june_temperature_8d_missing", lambda: month_temp(base()), True, std),
-          ("negative_gas_reading", lambda: negative(base()), False, std)]
+          ("negative_gas_reading", lambda: negative(base()), False, std),
+          # baselines that lack a whole season / a whole day of the week / almost everything: with the override the fit must still
+          # come back (the split candidates have to cope with empty calendar cells)
+          ("four_months_no_summer", lambda: base(days=120), True, std),
+          ("two_months_60d", lambda: base(days=60), True, std)]
+    if family != "billing":
+        dq.append(("no_sunday_readings", lambda: no_sundays(base()), True, std))
     po = [("weather_independent_noise", lambda: poor(base()), True, std),
           ("threshold_1e-6", lambda: base(), True, thr)]
     if H:
@@ -244,7 +255,7 @@ def run_case(case):
             gate_poor = "poorfit" in alpha(probe, False)["mdq"]
             realised_poor, stat = poor_by_statistics(family, probe)
         except Exception as exc:
-            viol.append({"clause": "fit_outcome", "key": dict(key0, act="Fit", want="model", got="Other"),
+            viol.append({"clause": "fit_outcome", "key": dict(key0, act="Fit", want="model", got="Other", variant=vname),
                          "detail": f"{family}/{vname}: fit(ignore_disqualification=True) raised {type(exc).__name__}: {str(exc)[:200]}"})
             return {"behaviour": [family, kind, vname, "fit_raises"], "violations": viol}
         if realised_poor is None or realised_poor != (kind in ("poor", "dq_poor")):
@@ -318,7 +329,16 @@ def run_case(case):
         ek = (csrc, act, tuple(params))
         if ek not in exec_cache:
             n_exec += 1
-            obj = copy.deepcopy(real_for(csrc)) if csrc[0] else new_model(family, settings)
+            fit_data = None
+            if act == "Predict" and params[0] == "fit_data":
+                # the model together with the data object it was fitted on, copied as ONE graph so that an identity link between
+                # them (a cached reference) survives the snapshot; an unfitted model is handed the data it would be fitted on
+                if csrc[0]:
+                    obj, fit_data = copy.deepcopy((real_for(csrc), data_obj))
+                else:
+                    obj, fit_data = new_model(family, settings), (data_obj if data_obj is not None else pin("own_baseline", "same"))
+            else:
+                obj = copy.deepcopy(real_for(csrc)) if csrc[0] else new_model(family, settings)
             stored_after = csrc[3]
             exc = None
             out = None
@@ -331,7 +351,7 @@ def run_case(case):
                     out = "model" if (res is obj and getattr(obj, "is_fitted", False)) else "not_a_fitted_model"
                     stored_after = False
                 elif act == "Predict":
-                    res = obj.predict(pin(params[0], params[1]), ignore_disqualification=params[2])
+                    res = obj.predict(fit_data if fit_data is not None else pin(params[0], params[1]), ignore_disqualification=params[2])
                     out = "frame" if isinstance(res, pd.DataFrame) and "predicted" in res.columns else "not_a_frame"
                 elif act == "Store":
                     obj = type(obj).from_json(obj.to_json())
